@@ -4,6 +4,7 @@
 mod util;
 mod c01;
 mod c04;
+mod c05;
 mod c12;
 mod curves;
 mod c14;
@@ -28,6 +29,7 @@ fn main() {
     match prop {
         "C01" => c01::run(&mut rng, n),
         "C04" => c04::run(&mut rng, n),
+        "C05" => c05::run(&mut rng, n),
         "C12" => {
             let slice = (seed % 1000) as usize;
             let thorough = args.iter().any(|a| a == "--thorough");
